@@ -286,11 +286,23 @@ class Analyzer:
         if isinstance(e, ast.Attribute):
             if e.attr in ALIAS_ATTRS or e.attr in ("coords", "attrs", "dims", "indexes", "chunks", "name"):
                 if e.attr in ("coords", "attrs", "dims", "indexes", "chunks", "name"):
-                    return {r + "." + e.attr if not r.startswith(("G:", "CLOSURE:")) else r for r in self.al(e.value, env)}
+                    return {r + "." + e.attr if not r.startswith(("G:", "CLOSURE:")) and "~" not in r else r for r in self.al(e.value, env)}
                 return self.al(e.value, env)
             return set()
         if isinstance(e, ast.Subscript):
-            return {r[:-5] if r.endswith("~elem") else r for r in self.al(e.value, env)}
+            base = self.al(e.value, env)
+            out = set()
+            vararg = self.fn.node.args.vararg.arg if self.fn.node.args.vararg else None
+            for r in base:
+                if r.endswith("~elem"):
+                    out.add(r[:-5])                     # element of a fresh container: the element object itself
+                elif isinstance(e.value, ast.Name) and e.value.id == vararg:
+                    out.add(r)                          # element of *args: the caller's own object
+                elif r.endswith("~view") or r.startswith(("G:", "CLOSURE:")):
+                    out.add(r)
+                else:
+                    out.add(r + "~view")                # indexing yields a new object sharing the buffer
+            return out
         if isinstance(e, ast.Starred):
             return self.al(e.value, env)
         if isinstance(e, (ast.Tuple, ast.List, ast.Set)):
@@ -326,6 +338,10 @@ class Analyzer:
     @staticmethod
     def elem(roots):
         return {r[:-5] if r.endswith("~elem") else r for r in roots}
+
+    @staticmethod
+    def plain(roots):
+        return {r[:-5] if r.endswith(("~elem", "~view")) else r for r in roots}
 
     def bind_loop_target(self, target, it, env):
         """loop variable = element of the iterable; zip()/enumerate() are matched positionally"""
@@ -490,6 +506,10 @@ class Analyzer:
         for r in roots:
             if r.endswith("~elem"):
                 continue            # the container itself is a fresh object; only its elements alias
+            if r.endswith("~view"):
+                if how.startswith("attribute store") and not how.endswith((".data", ".values")):
+                    continue        # attribute of the new view object (e.g. .name), not of the parameter
+                r = r[:-5]
             base = r.split(".")[0] if not r.startswith(("G:", "CLOSURE:")) else r
             if r.startswith("G:") or r.startswith("CLOSURE:"):
                 self.fn.gwrites.append((lineno, "%s of %s" % (how, r)))
@@ -570,7 +590,7 @@ class Analyzer:
         if isinstance(s, ast.Return):
             if s.value is not None:
                 for r in self.al(s.value, env):
-                    r = r[:-5] if r.endswith("~elem") else r
+                    r = r[:-5] if r.endswith(("~elem", "~view")) else r
                     base = r.split(".")[0]
                     if r == base and base in self.fn.params:
                         self.fn.ret_alias.add(base)
